@@ -98,6 +98,19 @@ def gen_str(rng, big):
     return rbytes(rng, rng.choice((255, 256, 257, 300, big)))
 
 
+# every control character as an escape: the writer's \\u00XX table (all 32 rows) is exercised by a round trip (seed C19-10)
+CTRL_STR = b'"' + b"".join(b"\\u%04x" % i for i in range(32)) + b'"'
+
+
+def jcanon(bs):
+    """compact text of a json string as value::save is documented to write it (independent of src/json.cpp's table)"""
+    short = {8: b"\\b", 9: b"\\t", 10: b"\\n", 12: b"\\f", 13: b"\\r", 34: b'\\"', 92: b"\\\\"}
+    return b'"' + b"".join(short.get(c, b"\\u%04x" % c if c < 32 else bytes([c])) for c in bs) + b'"'
+
+
+_ALLCTRL = jcanon(bytes(range(32)))
+CTRL_CANON = {CTRL_STR: _ALLCTRL, b'{' + CTRL_STR + b':[' + CTRL_STR + b']}': b'{' + _ALLCTRL + b':[' + _ALLCTRL + b']}',
+              b'"\\u000e"': jcanon(b"\x0e"), b'"\\u001f\\u000f"': jcanon(b"\x1f\x0f")}
 JSTR = ["", "a", "b", "ab", "x y", "k_1", "\u00e9", "zz-9", "A", "0"]
 
 
@@ -644,8 +657,10 @@ def main():
     # the parser's extensions): no python oracle, model (C11) and code must agree on the normalised text
     for txt in (b' { "b" : 1 , "a" : [ 1 , 2 ] } ', b'{"a":1,"a":2}', b'"\\u00e9\\n\\t\\/"', b'[1e3,1E-2,-0.0,12345678901234567890]', b'[1,]', b'01',
                 b'// c\n[null]', b'"\xc3\xa9\x7f"', b'[0.1,0.2,0.30000000000000004,1e308,5e-324]', b'{"":{"":{}}}', b'[[[[[[[[[[1]]]]]]]]]]',
-                b'"\\ud83d\\ude00"', b'{"a":tru}', b'[1 2]', b'', b'nul', b'1e999', b'"\xff"', b'[' * 600 + b']' * 600):
+                b'"\\ud83d\\ude00"', CTRL_STR, b'{' + CTRL_STR + b':[' + CTRL_STR + b']}', b'"\\u000e"', b'"\\u001f\\u000f"', b'{"a":tru}', b'[1 2]', b'', b'nul', b'1e999', b'"\xff"', b'[' * 600 + b']' * 600):
         casesA.append(f"rt j j{txt.hex()}")
+        if txt in CTRL_CANON:                       # python oracle: the value's canonical text, written by jcanon below
+            expect[casesA[-1]] = f"ok j{CTRL_CANON[txt].hex()} eof=1"
         casesA.append(f"load j {hexs0(struct.pack('<I', len(txt)) + txt)}")
         casesA.append(f"load+ M.s.j {hexs0(struct.pack('<I', 8) + struct.pack('<Q', 1) + struct.pack('<I', 1) + b'k' + struct.pack('<I', len(txt)) + txt)}")
     for _ in range(300 if thorough else 60):
